@@ -164,7 +164,7 @@ theorem step_binds (hrec : RecOK rec) (lf : Nat) (c : Spec.Ctx) (e : Expr) (env 
     · cases h
     · simp only [Spec.Res.ok.injEq] at h; obtain ⟨_, _, rfl, _⟩ := h; simp [binds]
     · next hne1 hne2 =>
-      cases hr : rec c e1 [] pt w with
+      cases hr : rec { c with neg := !c.neg } e1 [] pt w with
       | ok a b c' d => exact absurd hr (hne1 a b c' d)
       | fail a b => exact absurd hr (hne2 a b)
       | oof => rw [hr] at h; cases h
